@@ -10,7 +10,9 @@ from .. import core, mm, mmgen2, sx
 THEOREMS = ['C17.print_parse', 'C17.parse_print_parse', 'C17.slice_floats_in_order', 'C17.slice_declares',
             'C17.slice_labels_present', 'C17.slice_keeps_lemma', 'C17.slice_keeps_disjointness', 'C17.slice_keeps_top_ess',
             'C17.slice_verifies', 'C17.slice_verifies_of_verifyDb', 'C17.slice_verifies_nonvacuous',
-            'C17.cex_disj_now_verifies', 'C17.cex_top_ess_now_verifies']
+            'C17.cex_disj_now_verifies', 'C17.cex_top_ess_now_verifies',
+            'C17.slicer_text_is_the_model', 'C17.slicer_text_is_the_model_keys', 'C17.supporting_database_text_is_the_model',
+            'C17.translated_slices_verify', 'C17.translated_slicer_nonvacuous']
 
 
 def hx(s):
